@@ -133,6 +133,20 @@ CLAIMED = {
               'port and the direct oracle on the real objects (stated as such; no theorem is claimed for Python-level mutation).'),
         note=COMMON_NOTE + 'Message texts are not modelled (tags instead); the key-set clause has no theorem yet (port + oracle only).',
         design='§6 C13'),
+    'C14': dict(
+        technique='Lean 4 proof (resolved-view theorem: validation depends on a schema only through its dereferenced field mapping; use-site lemmas; kernel-evaluated recursion) + inline-vs-referenced oracle + correspondence with registries',
+        text=('C14_resolved_view / C14_field_references / C14_schema_reference: validation reads a schema only through resolvedFields, '
+              'so a schema with any subset of field rule sets (or the whole schema) replaced by registry names validates exactly like '
+              'the inline schema, for every environment (module-level or validator-bound registry alike), document and options; '
+              'C14_bulk_reference, C14_definitions, C14_subschema_reference (keysrules / valuesrules / list schema / items / '
+              'allow_unknown / mapping sub-schema given by name are dereferenced at their use site); C14_acceptance (schema validation '
+              'dereferences field definitions); C14_recursive (kernel-evaluated: a self-referential schema terminates on documents '
+              'nested 0..6 deep and reports the planted error). Partial: termination for every finite document under arbitrary '
+              'recursive registries, and the normalization-side use sites, are decided by the oracle (random subsets of reference-able '
+              'positions, chains, both kinds of registries: same acceptance, verdict, errors, normalized document) and the ports. '
+              'Defects F7, F21, F25, F27, F29, F30, F31 of this property were repaired by fix: commits.'),
+        note=COMMON_NOTE + 'Registries are modelled by their stored (already expanded) contents.',
+        design='§6 C14'),
     'C15': dict(
         technique='Lean 4 proof (splitting, shorthand expansion, deprecated names, spaces on the expansion model; kernel-evaluated nested instance) + random-rewriting oracle + accept correspondence',
         text=('On the Lean model of DefinitionSchema.expand: C15_split (a key <op>_<rule> is split at the first underscore after the '
